@@ -13,7 +13,15 @@ code -> spec: TLC judges the recorded real states:
 Design level: Crdt.tla with Defects = {} satisfies Laws and Convergence (tlc_must_hold); with the Defects of the
 known findings it must violate them (otherwise the Defects set is stale)."""
 import collections, json, os, re
+from concurrent.futures import ThreadPoolExecutor
 import vlib
+
+
+def par(*thunks):
+    """run independent (mostly TLC-bound) stages side by side; the first exception is re-raised"""
+    with ThreadPoolExecutor(max_workers=len(thunks)) as ex:
+        futs = [ex.submit(t) for t in thunks]
+        return [f.result() for f in futs]
 
 PROPERTIES = ["C38", "C39", "C40", "C41"]
 SPEC = "Crdt"
@@ -48,21 +56,27 @@ REPL_DEFECTS = ["UpdateIgnoresTombstone", "DeltaIgnoresTombstone", "FullStateIgn
 def run_replicator(ctx, pid):
     """C41 on real replicator actors (specs/Crdt/Replicator.tla)."""
     quick = ctx.quick
-    mc = ctx.tlc_must_hold(SPEC, "MC_Replicator.cfg" if quick else "MC_Replicator_t.cfg", module="MC_Replicator",
-                           timeout=600 if quick else 2400, workers=4 if quick else 6)
-    ctx.log("design: tombstoned keys stay out of the store in %d distinct states" % mc.distinct)
     with open(os.path.join(vlib.VERIF, "specs", SPEC, "MC_Replicator.cfg")) as f:
         base = f.read()
-    for dname in (REPL_DEFECTS[1:2] if quick else REPL_DEFECTS):     # vacuity: each missing check is seen by the invariant
-        cfgp = ctx.tmp("MC_Replicator_%s.cfg" % dname)
-        with open(cfgp, "w") as f:
-            f.write(base.replace("Defects = {}", 'Defects = {"%s"}' % dname))
-        r = ctx.tlc(SPEC, "MC_def.cfg", module="MC_Replicator", files={"MC_def.cfg": cfgp}, expect_fail=True, timeout=600,
-                    workers=2, name="def-" + dname)
-        if not r.violated:
-            raise vlib.Infra("Replicator.tla with Defects={%s} does not violate the tombstone properties (vacuous spec)" % dname)
-    exh, _ = gen_r(ctx, "Gen_Replicator.cfg" if quick else "Gen_Replicator_t.cfg")
-    sim, _ = gen_r(ctx, "Sim_Replicator.cfg", simulate="num=%d" % (150 if quick else 2000), name="rsim", timeout=1500)
+
+    def design():
+        mc = ctx.tlc_must_hold(SPEC, "MC_Replicator.cfg" if quick else "MC_Replicator_t.cfg", module="MC_Replicator",
+                               timeout=600 if quick else 2400, workers=4 if quick else 6)
+        for dname in (REPL_DEFECTS[1:2] if quick else REPL_DEFECTS):     # vacuity: each missing check is seen by the invariant
+            cfgp = ctx.tmp("MC_Replicator_%s.cfg" % dname)
+            with open(cfgp, "w") as f:
+                f.write(base.replace("Defects = {}", 'Defects = {"%s"}' % dname))
+            r = ctx.tlc(SPEC, "MC_def.cfg", module="MC_Replicator", files={"MC_def.cfg": cfgp}, expect_fail=True, timeout=600,
+                        workers=2, name="def-" + dname)
+            if not r.violated:
+                raise vlib.Infra("Replicator.tla with Defects={%s} does not violate the tombstone properties (vacuous spec)" % dname)
+        return mc
+
+    mc, (exh, _), (sim, _) = par(
+        design,
+        lambda: gen_r(ctx, "Gen_Replicator.cfg" if quick else "Gen_Replicator_t.cfg"),
+        lambda: gen_r(ctx, "Sim_Replicator.cfg", simulate="num=%d" % (150 if quick else 2000), name="rsim", timeout=1500))
+    ctx.log("design: tombstoned keys stay out of the store in %d distinct states; each missing check violates it" % mc.distinct)
     if len(exh) < 1000 or len(sim) < 200:
         raise vlib.Infra("behaviour generation produced too little (%d exhaustive, %d random)" % (len(exh), len(sim)))
     sim = vlib.sample(ctx.rng, sim, 1200 if quick else 20000)
@@ -71,21 +85,22 @@ def run_replicator(ctx, pid):
     vlib.write_ndjson(bfile, behaviours)
     ctx.log("behaviours: %d exhaustive (depth %d, 2 replicas, 1 key) + %d random (depth 12, 3 replicas, 2 keys)"
             % (len(exh), len(exh[0]["h"]), len(sim)))
-    exe = ctx.build("crdt")
+    exe = ctx.build("crdtrepl")
     trace = ctx.tmp("trace.ndjson")
-    p = ctx.run([exe, "replicator", bfile, trace], timeout=1800)
+    p = ctx.run([exe, bfile, trace], timeout=1800)
     stats = json.loads(p.stdout.strip().splitlines()[-1])
     ctx.log("real execution: %s" % stats)
     if stats["watchdog"] > len(behaviours) // 50:
         raise vlib.Infra("too many behaviours abandoned by the watchdog: %d" % stats["watchdog"])
     nlines = stats["events"]
-    mon = ctx.tlc(SPEC, "Mon_Replicator.cfg", dfs=True, files={"trace.ndjson": trace}, timeout=2400, heap="12g")
+    mon, conf = par(
+        lambda: ctx.tlc(SPEC, "Mon_Replicator.cfg", dfs=True, files={"trace.ndjson": trace}, timeout=2400, heap="12g"),
+        lambda: ctx.tlc(SPEC, "Trace_Replicator.cfg", dfs=True, files={"trace.ndjson": trace}, timeout=2400, heap="12g", expect_fail=True))
     if mon.depth != nlines + 1:
         raise vlib.Infra("monitor did not consume the whole trace (%d of %d)" % (mon.depth - 1, nlines))
     mism = [tuple(t) for t in vlib.tuples(mon.out, "MISMATCH")]
     if len(mism) != mon.out.count('"MISMATCH"') or any(len(t) != 3 or not isinstance(t[0], int) for t in mism):
         raise vlib.Infra("unparsed MISMATCH lines in monitor output")
-    conf = ctx.tlc(SPEC, "Trace_Replicator.cfg", dfs=True, files={"trace.ndjson": trace}, timeout=2400, heap="12g", expect_fail=True)
     drift = None
     rows = None
     if conf.violated:
@@ -147,22 +162,27 @@ def run(ctx, pid):
     if pid == "C41":
         return run_replicator(ctx, pid)
     quick = ctx.quick
-    # ---- 1. design level ---------------------------------------------------------------------------------
-    mc = ctx.tlc_must_hold(SPEC, "MC_Crdt.cfg" if quick else "MC_Crdt_t.cfg", module="MC_Crdt", timeout=600 if quick else 2400,
-                           workers=4 if quick else 6)
-    ctx.log("design: Defects={}: Laws and Convergence hold in %d distinct states" % mc.distinct)
-    kn = ctx.tlc(SPEC, "MC_CrdtKnown.cfg", module="MC_Crdt", timeout=600, expect_fail=True, workers=2, name="known")
+    # ---- 1. design level, 2. behaviours (independent TLC runs, side by side) ------------------------------
+    def design():
+        cfgs = ["MC_Crdt.cfg"] if quick else ["MC_Crdt_t.cfg", "MC_Crdt_b.cfg"]
+        return [ctx.tlc_must_hold(SPEC, c, module="MC_Crdt", timeout=600 if quick else 3000, workers=4 if quick else 6) for c in cfgs]
+
+    def known():
+        return ctx.tlc(SPEC, "MC_CrdtKnown.cfg", module="MC_Crdt", timeout=600, expect_fail=True, workers=2, name="known")
+
+    mcs, kn, (exh, _), (sim, _) = par(
+        design, known,
+        lambda: gen(ctx, "Gen_Crdt.cfg" if quick else "Gen_Crdt_t.cfg"),
+        lambda: gen(ctx, "Sim_Crdt.cfg", simulate="num=%d" % (100 if quick else 1500), name="sim", timeout=1500))
+    mc = mcs[0]
+    ctx.log("design: Defects={}: Laws and Convergence hold in %s distinct states" % [m.distinct for m in mcs])
     if not kn.violated:
         raise vlib.Infra("the model with the Defects of the known findings satisfies the properties: Defects set is stale")
     ctx.log("design: with the known findings' Defects the model violates %s (as it must)" % kn.violated)
-
-    # ---- 2. behaviours -----------------------------------------------------------------------------------
-    exh, _ = gen(ctx, "Gen_Crdt.cfg" if quick else "Gen_Crdt_t.cfg")
-    sim, _ = gen(ctx, "Sim_Crdt.cfg", simulate="num=%d" % (120 if quick else 1500), name="sim", timeout=1500)
     if len(exh) < 1000 or len(sim) < 200:
         raise vlib.Infra("behaviour generation produced too little (%d exhaustive, %d random)" % (len(exh), len(sim)))
     # random walks come with every variant of their last step; keep a seeded sample
-    sim = vlib.sample(ctx.rng, sim, 1500 if quick else 25000)
+    sim = vlib.sample(ctx.rng, sim, 1200 if quick else 25000)
     behaviours = exh + sim
     bfile = ctx.tmp("behaviours.ndjson")
     vlib.write_ndjson(bfile, behaviours)
@@ -191,19 +211,6 @@ def run(ctx, pid):
     steps = os.path.join(outdir, "steps.ndjson")
     ctx.log("real execution: %s" % stats)
 
-    # ---- 4. conformance (drift only) ---------------------------------------------------------------------
-    conf = ctx.tlc(SPEC, "Trace_Crdt.cfg", dfs=True, files={"trace.ndjson": steps}, timeout=2400, heap="12g", expect_fail=True)
-    drift = None
-    if conf.error:
-        drift = "conformance spec could not evaluate line %d: %s" % (conf.depth, conf.error[:300])
-    elif conf.depth != stats["steps"] + 1:
-        rows = vlib.read_ndjson(steps)
-        beh, k = cut(rows, max(conf.depth, 1))
-        drift = "real trace rejected at line %d of %d (type %s, step %s)" % (conf.depth, stats["steps"], beh[0]["ty"],
-                                                                               json.dumps({x: beh[k][x] for x in ("a", "r", "q", "id", "ops")}))
-    if drift:
-        ctx.log("conformance drift (not a verdict): " + drift)
-
     # ---- 5. the property monitor -------------------------------------------------------------------------
     if pid == "C38":
         trace, cfg, nlines = os.path.join(outdir, "laws.ndjson"), "Mon_CrdtLaws.cfg", stats["laws"]
@@ -215,17 +222,41 @@ def run(ctx, pid):
     if pid != "C39" and nlines > cap:      # records are independent of each other: judge a seeded sample
         with open(trace) as f:
             recs = f.read().splitlines()
+        # stratified by CRDT type: types with few records (flag, counters) are kept whole
         keep = [i for i, r in enumerate(recs) if '"rec":"key"' in r]
-        rest = [i for i, r in enumerate(recs) if '"rec":"key"' not in r]
-        recs = [recs[i] for i in sorted(keep + ctx.rng.sample(rest, cap - len(keep)))]
+        by_ty = collections.defaultdict(list)
+        for i, r in enumerate(recs):
+            if '"rec":"key"' not in r:
+                by_ty[re.search(r'"ty":"(\w+)"', r).group(1)].append(i)
+        budget, chosen = cap - len(keep), []
+        for k, (ty, idx) in enumerate(sorted(by_ty.items(), key=lambda kv: len(kv[1]))):
+            share = budget // (len(by_ty) - k)
+            take = idx if len(idx) <= share else ctx.rng.sample(idx, share)
+            chosen += take
+            budget -= len(take)
+        recs = [recs[i] for i in sorted(keep + chosen)]
+        cap = len(recs)
         trace = ctx.tmp("sampled.ndjson")
         with open(trace, "w") as f:
             f.write("\n".join(recs) + "\n")
         ctx.log("judging a seeded sample of %d of %d records" % (cap, nlines))
         nlines = cap
-    mon = ctx.tlc(SPEC, cfg, dfs=True, files={"trace.ndjson": trace}, timeout=2400, heap="12g")
+    mon, conf = par(
+        lambda: ctx.tlc(SPEC, cfg, dfs=True, files={"trace.ndjson": trace}, timeout=2400, heap="12g"),
+        lambda: ctx.tlc(SPEC, "Trace_Crdt.cfg", dfs=True, files={"trace.ndjson": steps}, timeout=2400, heap="12g", expect_fail=True))
     if mon.depth != nlines + 1:
         raise vlib.Infra("monitor did not consume the whole trace (%d of %d)" % (mon.depth - 1, nlines))
+    # conformance (drift only, never a verdict)
+    drift = None
+    if conf.error:
+        drift = "conformance spec could not evaluate line %d: %s" % (conf.depth, conf.error[:300])
+    elif conf.depth != stats["steps"] + 1:
+        rows = vlib.read_ndjson(steps)
+        beh, k = cut(rows, max(conf.depth, 1))
+        drift = "real trace rejected at line %d of %d (type %s, step %s)" % (conf.depth, stats["steps"], beh[0]["ty"],
+                                                                               json.dumps({x: beh[k][x] for x in ("a", "r", "q", "id", "ops")}))
+    if drift:
+        ctx.log("conformance drift (not a verdict): " + drift)
     # <<"MISMATCH", line, type, kind, [replica,] cause-or-flavour>>
     tl = vlib.tuples(mon.out, "MISMATCH")
     if len(tl) != mon.out.count('"MISMATCH"') or any(len(t) != (5 if pid == "C39" else 4) or not isinstance(t[0], int) for t in tl):
@@ -264,7 +295,7 @@ def run(ctx, pid):
         "exhaustive": True, "exhaustive_histories": len(exh), "random_walks": len(sim), "per_type": dict(per_type),
         "real": stats, "conformance_drift": drift,
         "monitor_mismatches": len(mism), "monitor_mismatches_known": len(known),
-        "design_states_defects_empty": mc.distinct, "design_known_defects_violate": kn.violated,
+        "design_states_defects_empty": [m.distinct for m in mcs], "design_known_defects_violate": kn.violated,
     }
     assumptions = [
         "replica i uses node id n_i only; LWW timestamps strictly increase per node",
